@@ -37,3 +37,11 @@ pub fn clock_now() -> std::time::Instant {
 /// `zeroize::optimization_barrier` is an empty inline-assembly statement (a compiler barrier):
 /// nothing to execute symbolically.
 pub fn barrier_stub<T: ?Sized>(_val: &T) {}
+
+// ---- entry points for harnesses that live in another crate of the workspace (biscuit-capi)
+pub fn capi_any_public(p256: bool) -> crate::PublicKey {
+    crate::crypto::kh_keys::any_public(p256)
+}
+pub fn capi_oracle_on() {
+    crate::crypto::kh_oracle::switch_on()
+}
